@@ -10,7 +10,8 @@
 //                                             and to the restored sketch; R: both contents
 //   3 kind byte*                              explicit image through deserialize(bytes);  4 kind byte*: through deserialize(istream)
 // a decoded sketch is shown as 1 [bytes consumed, stream only] lg_max lg_cur total offset n, then per counter sorted by item: len item* w
-//   7 r path                                  read the image of r back through `path` and serialize the restored sketch; R: 1, its image
+//   7 r path                                  read the image of r back through `path` and serialize the restored sketch; R: 1, the first
+//                                             32 bytes of its image, then its counters sorted by item (len item* w)
 // An allocation request above 256 MiB is refused and reported as R -9 (never as a plain rejection): a reader that sizes an
 // allocation from a corrupted or never-read field must not take the machine down while it is being reported.
 #include "common.hpp"
@@ -190,7 +191,13 @@ static void handler1(const Line& t, Out& o) {
     long used = -1;
     std::unique_ptr<Base> b(decode(s.kind, (int)t.at(2), img, &used));
     auto img2 = b->image(o, true);
-    if (o.res.empty()) { o.R(1); for (uint8_t x : img2) o.R(x); }
+    // canonical form (the order of the counters in a hash table is unspecified): the preamble bytes, then the content sorted by item
+    if (o.res.empty()) {
+      o.R(1);
+      for (size_t i = 0; i < img2.size() && i < 32; ++i) o.R(img2[i]);
+      Out tmp; b->show(tmp);
+      for (size_t i = 5; i < tmp.res.size(); ++i) o.R(tmp.res[i]);
+    }
     break; }
   case 3: case 4: {
     std::vector<uint8_t> img; for (size_t i = 2; i < t.size(); ++i) img.push_back((uint8_t)t[i]);
